@@ -91,15 +91,20 @@ type freshAnalysis struct {
 	// code stores a map that may be a shared definition's own; every in-place
 	// write through such a field, anywhere, may then hit the shared map
 	taint    map[*types.Var]string
+	taintPos map[*types.Var]token.Pos
 	newTaint bool
+	impl     func(*types.Func) []*types.Func
 }
 
-func (a *freshAnalysis) addTaint(f *types.Var, why string) {
+func (a *freshAnalysis) addTaint(f *types.Var, why string, pos ...token.Pos) {
 	if f == nil {
 		return
 	}
 	if _, ok := a.taint[f]; !ok {
 		a.taint[f] = why
+		if len(pos) > 0 {
+			a.taintPos[f] = pos[0]
+		}
 		a.newTaint = true
 	}
 }
@@ -126,7 +131,7 @@ type freshViolation struct {
 }
 
 func newFreshAnalysis(p *core.Program, protected func(types.Type) bool) *freshAnalysis {
-	return &freshAnalysis{p: p, protected: protected, sums: map[*types.Func]*freshSummary{}, taint: map[*types.Var]string{}}
+	return &freshAnalysis{p: p, protected: protected, sums: map[*types.Func]*freshSummary{}, taint: map[*types.Var]string{}, taintPos: map[*types.Var]token.Pos{}}
 }
 
 func paramIndex(fn *types.Func, v *types.Var) (int, bool) {
@@ -193,7 +198,7 @@ func (a *freshAnalysis) summary(fn *types.Func) *freshSummary {
 		for at := range atoms {
 			switch at.kind {
 			case 2:
-				a.addTaint(f, fmt.Sprintf("%s stores a map that may be a shared definition's own into it (%s)", fd.Name(), a.p.Rel(pos)))
+				a.addTaint(f, fmt.Sprintf("%s stores a reference that may be a shared definition's own into it (%s)", fd.Name(), a.p.Rel(pos)), pos)
 			case 3:
 				s.fstores = append(s.fstores, fieldStoreOf{at.idx, f, pos})
 			}
@@ -261,7 +266,7 @@ func (a *freshAnalysis) summary(fn *types.Func) *freshSummary {
 			for at := range st.eval(actual, 0) {
 				switch at.kind {
 				case 2:
-					a.addTaint(fs.field, fmt.Sprintf("%s passes a map that may be a shared definition's own as %s of %s, which stores it there (%s)", fd.Name(), paramName(callee, fs.param), core.FuncName(callee), a.p.Rel(fs.pos)))
+					a.addTaint(fs.field, fmt.Sprintf("%s passes a reference that may be a shared definition's own as %s of %s, which stores it there (%s)", fd.Name(), paramName(callee, fs.param), core.FuncName(callee), a.p.Rel(fs.pos)), fs.pos)
 				case 3:
 					s.fstores = append(s.fstores, fieldStoreOf{at.idx, fs.field, fs.pos})
 				}
@@ -427,6 +432,12 @@ func (st *funcState) eval(e ast.Expr, depth int) atomSet {
 			if _, ok := ast.Unparen(x.X).(*ast.CompositeLit); ok {
 				return st.evalLit(ast.Unparen(x.X).(*ast.CompositeLit))
 			}
+			// the address of a local variable that holds a value (a copy): a new location
+			if id, ok := ast.Unparen(x.X).(*ast.Ident); ok {
+				if v := core.VarOf(st.info, id); v != nil && !v.IsField() && !(v.Pkg() != nil && v.Parent() == v.Pkg().Scope()) && !refLike(v.Type()) {
+					return set(aFresh)
+				}
+			}
 			return st.eval(x.X, depth+1)
 		}
 	case *ast.CompositeLit:
@@ -508,16 +519,42 @@ func (st *funcState) eval(e ast.Expr, depth int) atomSet {
 		if !core.InModule(callee.Pkg()) {
 			return set(aShared)
 		}
-		cs := st.a.summary(callee)
-		if cs.inProg {
-			return set(aShared)
+		// a method of a module interface: what any implementation may return
+		var sums []*freshSummary
+		if sig := callee.Type().(*types.Signature); sig.Recv() != nil {
+			if _, isIface := sig.Recv().Type().Underlying().(*types.Interface); isIface {
+				if st.a.impl == nil {
+					st.a.impl = implementers(st.a.p)
+				}
+				for _, m := range st.a.impl(callee) {
+					ms := st.a.summary(m)
+					if ms.inProg {
+						return set(aShared)
+					}
+					sums = append(sums, ms)
+				}
+				if len(sums) == 0 {
+					return set(aShared)
+				}
+			}
+		}
+		if sums == nil {
+			cs := st.a.summary(callee)
+			if cs.inProg {
+				return set(aShared)
+			}
+			sums = []*freshSummary{cs}
 		}
 		out := atomSet{}
 		var recvAtoms atomSet
 		if r := core.RecvExpr(x); r != nil && callee.Type().(*types.Signature).Recv() != nil {
 			recvAtoms = st.eval(r, depth+1)
 		}
-		for _, rc := range cs.rets {
+		var allRets []retCase
+		for _, cs := range sums {
+			allRets = append(allRets, cs.rets...)
+		}
+		for _, rc := range allRets {
 			if rc.cond == 1 && recvAtoms != nil && !recvAtoms[aNil] {
 				continue
 			}
@@ -575,7 +612,7 @@ func (st *funcState) docMapStores(report func(f *types.Var, atoms atomSet, pos t
 			}
 			for i, l := range s.Lhs {
 				se, ok := ast.Unparen(l).(*ast.SelectorExpr)
-				if !ok || !isDocMap(info.TypeOf(se)) {
+				if !ok {
 					continue
 				}
 				sel := info.Selections[se]
@@ -583,6 +620,9 @@ func (st *funcState) docMapStores(report func(f *types.Var, atoms atomSet, pos t
 					continue
 				}
 				f, _ := sel.Obj().(*types.Var)
+				if !isDocMap(info.TypeOf(se)) && !st.a.docRefField(f, info.TypeOf(se.X)) {
+					continue
+				}
 				report(f, st.eval(s.Rhs[i], 0), s.Pos())
 			}
 		case *ast.CompositeLit:
@@ -599,7 +639,7 @@ func (st *funcState) docMapStores(report func(f *types.Var, atoms atomSet, pos t
 					continue
 				}
 				f, _ := info.Uses[id].(*types.Var)
-				if f == nil || !f.IsField() || !isDocMap(f.Type()) {
+				if f == nil || !f.IsField() || (!isDocMap(f.Type()) && !st.a.docRefField(f, info.TypeOf(s))) {
 					continue
 				}
 				report(f, st.eval(kv.Value, 0), kv.Pos())
@@ -817,4 +857,33 @@ func (a *freshAnalysis) taintOf(v freshViolation) string {
 		return true
 	})
 	return why
+}
+
+
+// docRefField: a pointer member of a document struct (a module struct that is
+// not a definition type) whose target is plain data (an amount, a percentage,
+// a date — not another struct of the module that has its own members to own):
+// `c.Surcharge = value.Surcharge` makes the document point into whatever
+// `value` belongs to.
+func (a *freshAnalysis) docRefField(f *types.Var, owner types.Type) bool {
+	if f == nil || owner == nil || a.protected(owner) {
+		return false
+	}
+	n, st := core.StructOf(owner)
+	if n == nil || st == nil || n.Obj().Pkg() == nil || !core.InModule(n.Obj().Pkg()) {
+		return false
+	}
+	pt, ok := f.Type().(*types.Pointer)
+	if !ok {
+		return false
+	}
+	en, _ := pt.Elem().(*types.Named)
+	if en == nil || en.Obj().Pkg() == nil || !core.InModule(en.Obj().Pkg()) {
+		return false
+	}
+	switch core.RelPkg(en.Obj().Pkg().Path()) {
+	case "num", "cal":
+		return true
+	}
+	return false
 }
